@@ -128,8 +128,13 @@ package quickfix
 //@ spec tsprefixb(d []byte) bool = bdig(d,0) && bdig(d,1) && bdig(d,2) && bdig(d,3) && bdig(d,4) && bdig(d,5) && bdig(d,6) && bdig(d,7) && d[8] == 45 && bdig(d,9) && bdig(d,10) && d[11] == 58 && bdig(d,12) && bdig(d,13) && d[14] == 58 && bdig(d,15) && bdig(d,16)
 //@ spec tsgrammar(d []byte) bool = (len(d) == 17 || len(d) == 21 || len(d) == 24 || len(d) == 27) && tsprefixb(d) && (len(d) > 17 ==> d[17] == 46 && (forall i :: 18 <= i && i < len(d) ==> bdig(d, i)))
 
-//@ func (f *FIXUTCTimestamp) Read [C09,C14]
+// accepted exactly when time.Parse accepts the layout chosen by the length and the fraction separator is '.'
+//@ spec tsaccept(d []byte) bool = (len(d) == 17 && tparse_ok("20060102-15:04:05", string(d))) || (len(d) == 21 && tparse_ok("20060102-15:04:05.000", string(d)) && d[17] == 46) || (len(d) == 24 && tparse_ok("20060102-15:04:05.000000", string(d)) && d[17] == 46) || (len(d) == 27 && tparse_ok("20060102-15:04:05.000000000", string(d)) && d[17] == 46)
+//@ spec tslayoutval(d []byte) time.Time = len(d) == 17 ? tparse_val("20060102-15:04:05", string(d)) : (len(d) == 21 ? tparse_val("20060102-15:04:05.000", string(d)) : (len(d) == 24 ? tparse_val("20060102-15:04:05.000000", string(d)) : tparse_val("20060102-15:04:05.000000000", string(d))))
+//@ func (f *FIXUTCTimestamp) Read [C06,C09,C14]
 //@   modifies f.*, fresh P.string, fresh E.any, fresh P.sl.uint8
+//@   ensures @accept (err == nil) <==> tsaccept(bytes)
+//@   ensures @time err == nil ==> f.Time == tslayoutval(bytes)
 //@   ensures @grammar err == nil ==> tsgrammar(bytes)
 //@   ensures @precision err == nil ==> f.Precision == (len(bytes) == 17 ? Seconds : (len(bytes) == 21 ? Millis : (len(bytes) == 24 ? Micros : Nanos)))
 //@   ensures @length len(bytes) != 17 && len(bytes) != 21 && len(bytes) != 24 && len(bytes) != 27 ==> err != nil
@@ -408,10 +413,13 @@ package quickfix
 //@   ensures @ok (result1 == nil) <==> has(m.tagLookup, tag)
 //@   ensures @value result1 == nil ==> result0 == string(m.tagLookup[tag][0].value)
 
-//@ func (m FieldMap) GetTime [C09,C11]
+//@ func (m FieldMap) GetTime [C06,C09,C11]
 //@   modifies fresh H.quickfix.messageRejectError.*, fresh P.quickfix.Tag, fresh P.quickfix.FIXString, fresh P.quickfix.FIXBoolean, fresh P.quickfix.FIXInt, fresh H.quickfix.FIXUTCTimestamp.*, fresh H.time.Time.*, fresh P.string, fresh E.any, fresh P.sl.uint8
 //@   requires fmvals(m)
 //@   ensures @missing !has(m.tagLookup, tag) ==> err != nil
+//@   ensures @ok (err == nil) <==> (has(m.tagLookup, tag) && tsaccept(m.tagLookup[tag][0].value))
+//@   ensures @value err == nil ==> t == tslayoutval(m.tagLookup[tag][0].value)
+//@   ensures @malformed has(m.tagLookup, tag) && !tsaccept(m.tagLookup[tag][0].value) ==> mre(err, 6, tag)
 
 //@ func (m FieldMap) GetGroup [C09,C13]
 //@   requires fmvals(m) && parser != nil
